@@ -663,22 +663,31 @@ impl<'a> MetaStoreUpdate<'a> {
             .host
             .clone();
 
+        // The host of the other proxy in the same chunk.
+        // The new proxy should not be in that host as long as another host has free proxies.
+        let partner_host = self.get_partner_host(&failed_proxy_address);
+
         let link_count_table = link_table
             .get(&failed_proxy_host)
             .expect("consume_new_proxy: cannot find failed proxy");
-        let peer_host = link_count_table
-            .iter()
-            .filter(|(peer_host, _)| free_host_proxies.contains_key(*peer_host))
-            .min_by(|(host1, count1), (host2, count2)| {
-                Self::second_host_cmp(
-                    host1.as_str(),
-                    **count1,
-                    host2.as_str(),
-                    **count2,
-                    &free_host_proxies,
-                )
-            })
-            .map(|(peer_host, _)| peer_host)
+        let select_host = |excluded_host: Option<&String>| {
+            link_count_table
+                .iter()
+                .filter(|(peer_host, _)| free_host_proxies.contains_key(*peer_host))
+                .filter(|(peer_host, _)| Some(*peer_host) != excluded_host)
+                .min_by(|(host1, count1), (host2, count2)| {
+                    Self::second_host_cmp(
+                        host1.as_str(),
+                        **count1,
+                        host2.as_str(),
+                        **count2,
+                        &free_host_proxies,
+                    )
+                })
+                .map(|(peer_host, _)| peer_host)
+        };
+        let peer_host = select_host(partner_host.as_ref())
+            .or_else(|| select_host(None))
             .ok_or(MetaStoreError::NoAvailableResource)?;
 
         let peer_proxy = MetaStoreQuery::new(self.store)
@@ -696,6 +705,20 @@ impl<'a> MetaStoreUpdate<'a> {
             .expect("consume_new_proxy: cannot find peer proxy")
             .clone();
         Ok(new_proxy)
+    }
+
+    fn get_partner_host(&self, proxy_address: &str) -> Option<String> {
+        for cluster in self.store.clusters.values() {
+            for chunk in cluster.chunks.iter() {
+                if chunk.proxy_addresses[0] == proxy_address {
+                    return Some(chunk.hosts[1].clone());
+                }
+                if chunk.proxy_addresses[1] == proxy_address {
+                    return Some(chunk.hosts[0].clone());
+                }
+            }
+        }
+        None
     }
 
     fn build_link_table(&self) -> HashMap<String, HashMap<String, usize>> {
